@@ -2,7 +2,7 @@
 # validate every /tmp/mut-C*/OUT/patchN.diff (+demoN.patch) -> /verif/.cache/seedval/<id>-<n>.json
 mkdir -p /verif/.cache/seedval
 ls /tmp/mut-C*/OUT/patch*.diff | while read p; do
-  id=$(echo $p | sed 's#/tmp/mut-\(C[0-9]*\)/OUT/patch\([0-9]\).diff#\1-\2#')
+  id=$(echo $p | sed 's#/tmp/mut-\(C[0-9]*[a-z]*\)/OUT/patch\([0-9]\).diff#\1-\2#')
   d=$(echo $p | sed 's#patch\([0-9]\).diff#demo\1.patch#')
   [ -f /verif/.cache/seedval/$id.json ] && continue
   [ -f $d ] || continue
